@@ -69,6 +69,8 @@ structure Phys where
   pages : Array Page
   infos : List (Int × LinkInfo)       -- offset of a logical stream's BOS page ↦ info parsed from its three header packets
   badhdr : List Int := []             -- BOS offsets of Vorbis streams (good identification header) whose other headers are refused
+  stalls : List Int := []             -- ascending: offsets where libogg's page hunt comes to rest at end of file (an 'O' with fewer than 27
+                                      -- bytes after it; a capture pattern whose header or body would run past the end)
   deriving Inhabited
 
 /-- `ogg_stream_state` as a queue -/
@@ -156,11 +158,17 @@ def FUEL : Int := -99999
 
 def seekCur (off : Int) : Cur := { off := off, fill := off }
 
+/-- where a page hunt from `off` that finds no page comes to rest: `ogg_sync_pageseek` answers "need more data" when fewer than 27 bytes
+    are left, or at a capture pattern whose page would run past the end of the file; with nothing of the kind it skips to the end -/
+def stallAt (ph : Phys) (off : Int) : Int :=
+  if ph.size - off < 27 then off else (ph.stalls.find? (fun q => q ≥ off)).getD ph.size
+
 /-- `_get_next_page(vf,og,boundary)` over an explicit cursor: boundary <0 unbounded, 0 only what is
     buffered, n>0 pages starting within the next n bytes.  Returns (page offset or negative code, page, cursor). -/
 def nextPage (ph : Phys) (c : Cur) (boundary : Int) : Int × Page × Cur :=
   let lim := c.off + boundary
-  match ph.pages.find? (fun p => p.off ≥ c.off) with
+  let st := stallAt ph c.off
+  match ph.pages.find? (fun p => p.off ≥ c.off ∧ p.off < st) with
   | some p =>
       if boundary > 0 ∧ p.off ≥ lim then (OV_FALSE, default, { c with off := lim, fill := if c.fill < lim then lim else c.fill })
       else if boundary = 0 ∧ p.off + p.len > c.fill then (OV_FALSE, default, c)
@@ -170,8 +178,8 @@ def nextPage (ph : Phys) (c : Cur) (boundary : Int) : Int × Page × Cur :=
         (p.off, p, { off := need, fill := if fill1 > ph.size then ph.size else fill1 })
   | none =>
       if boundary = 0 then (OV_FALSE, default, c)
-      else if boundary > 0 ∧ lim ≤ ph.size then (OV_FALSE, default, { c with off := lim, fill := if c.fill < lim then lim else c.fill })
-      else (OV_EOF, default, { off := ph.size, fill := ph.size })
+      else if boundary > 0 ∧ lim ≤ st then (OV_FALSE, default, { c with off := lim, fill := if c.fill < lim then lim else c.fill })
+      else (OV_EOF, default, { off := st, fill := ph.size })
 
 /-- inner `while(vf->offset<end)` loop shared by the two backward searches -/
 def prevScan (ph : Phys) (end_ : Int) (serials : List Int) (want : Int) :
